@@ -1,8 +1,8 @@
 import PnaVerif.Model.Entry
 /-
   The inside of a solid block: `EntryIterator` of lib/src/entry.rs over the decrypted,
-  decompressed inner stream (`SolidEntry::entries`), after the `fix:` that makes the iterator stop
-  once it has reported a stream error.
+  decompressed inner stream (`SolidEntry::entries`), after the `fix:` commits that make the iterator
+  stop once it has reported a stream error and report a stream that ends inside an entry.
 
   The inner stream is what the decoder stack delivers: some bytes, then either a clean end of stream
   or an error that `read` keeps returning (`term`).  `read_exact` on it fails with that error when the
@@ -33,18 +33,24 @@ def collectEntry : Nat → InStream → List Chunk → Outcome (List Chunk × In
     | .ok (c, s') =>
       if c.ty = ChunkType.FEND then .ok (acc ++ [c], s') else collectEntry fuel s' (acc ++ [c])
 
-/-- The items `EntryIterator` yields until it returns `None`.
-    * `UnexpectedEof` while gathering (clean end, or a truncated trailing entry): `None`;
-    * any other stream error: that error once, then `None` (the fix);
+/-- The items `EntryIterator` yields until it returns `None` (after the two `fix:` commits).
+    * the stream may end only between two entries: no byte left and a clean end of stream → `None`;
+      no byte left and a decoder error → that error, once;
+    * any error while gathering the chunks of an entry — `UnexpectedEof` included (a truncated
+      stream, or the noise a wrong password decrypts to) — is yielded once, then `None`;
     * an entry that gathers but does not parse: its error as an item, iteration continues. -/
 def solidIter : Nat → InStream → List (Outcome NormalEntry)
   | 0, _ => [.panic "fuel"]
   | fuel+1, s =>
-    match collectEntry (s.bytes.length + 1) s [] with
-    | .error .eof => []
-    | .error e => [.error e]
-    | .panic p => [.panic p]
-    | .ok (cs, s') => parseN cs :: solidIter fuel s'
+    if s.bytes = [] then
+      match s.term with
+      | none => []
+      | some e => [.error e]
+    else
+      match collectEntry (s.bytes.length + 1) s [] with
+      | .error e => [.error e]
+      | .panic p => [.panic p]
+      | .ok (cs, s') => parseN cs :: solidIter fuel s'
 
 /-- `SolidEntry::entries(..)` once the decoder stack has been opened -/
 def solidEntries (s : InStream) : List (Outcome NormalEntry) := solidIter (s.bytes.length + 1) s
